@@ -348,6 +348,8 @@ class SATEncoder:
         for v in range(lb, ub + 1):
             var.bool_vars[v] = self._new_bool_var()
         self.model._vars[name] = var
+        # Created after _encode_vars ran, so it needs its own exactly-one constraint
+        self._encode_exactly_one(list(var.bool_vars.values()))
         return var
 
     # Global constraints
@@ -366,6 +368,12 @@ class SATEncoder:
             if i in var.bool_vars:
                 self._clauses.append([-var.bool_vars[i]])
 
+        # Successors are node indices: 0 <= x[i] < n
+        for var in variables:
+            for val in range(var.lb, var.ub + 1):
+                if not 0 <= val < n:
+                    self._clauses.append([-var.bool_vars[val]])
+
         if n <= 1:
             return
 
@@ -378,9 +386,7 @@ class SATEncoder:
         for i, var in enumerate(variables):
             for j in range(1, n):
                 if j in var.bool_vars:
-                    for ti in range(var.lb, var.ub + 1):
-                        if ti not in t[i].bool_vars:
-                            continue
+                    for ti in range(t[i].lb, t[i].ub + 1):
                         for tj in range(t[j].lb, ti + 1):
                             if tj in t[j].bool_vars:
                                 self._clauses.append([-var.bool_vars[j], -t[i].bool_vars[ti], -t[j].bool_vars[tj]])
